@@ -11,7 +11,7 @@ use serde_json::{json, Value};
 use crate::common::{fnv, Engine, RunOutcome};
 use crate::rng::Rng;
 
-use prog::{gen_history, gen_program_m, gen_program_v, gen_program_w, gen_program_x, Class, GenCfg, Op, Scenario, Step};
+use prog::{gen_history, gen_program_m, gen_program_v, gen_program_vx, gen_program_w, gen_program_x, Class, GenCfg, Op, Scenario, Step};
 
 pub struct BuildEngine;
 
@@ -74,7 +74,7 @@ impl Engine for BuildEngine {
   fn generate(&self, rng: &mut Rng, config: &str, _prop: &str) -> Scenario {
     let cfg = cfg_for(config);
     let program = match cfg.class {
-      Class::X => { let want = match config { c if c.starts_with("x-hidden") => rng.below(2), c if c.starts_with("x-overlap") => 2, c if c.starts_with("x-cycle") => 3, _ => rng.below(4) }; gen_program_x(rng, &cfg, want) }
+      Class::X => { let want = match config { c if c.starts_with("x-hidden") => *rng.pick(&[0u64, 0, 1, 1, 4]), c if c.starts_with("x-overlap") => 2, c if c.starts_with("x-cycle") => 3, _ => rng.below(5) }; if rng.chance(25) { gen_program_vx(rng, &cfg, want) } else { gen_program_x(rng, &cfg, want) } }
       Class::M => gen_program_m(rng, &cfg),
       Class::V => gen_program_v(rng, &cfg),
       _ => gen_program_w(rng, &cfg),
